@@ -150,7 +150,11 @@ def run(prog, chk, tier):
     import ast as _ast
 
     helpers = {id(e.d["callee"]): e.d["callee"] for e in res.events if e.kind == "call" and e.d.get("callee") is not None and getattr(e.d["callee"], "module", None) is fi.module}
-    globs = [n for f_ in [fi] + list(helpers.values()) for n in _ast.walk(f_.node) if isinstance(n, (_ast.Global, _ast.Nonlocal))]
+    # (`nonlocal x` in a function nested in crc8404B names a variable of the running call -- a fresh cell per invocation --, not state that outlives it;
+    # `global`, and `nonlocal` anywhere else, is state)
+    own_nested = {id(n) for d_ in _ast.walk(fi.node) if isinstance(d_, (_ast.FunctionDef, _ast.Lambda)) and d_ is not fi.node for n in _ast.walk(d_) if isinstance(n, _ast.Nonlocal)}
+    escapes = any(isinstance(r_, _ast.Return) and r_.value is not None and any(isinstance(x_, (_ast.Lambda,)) or (isinstance(x_, _ast.Name) and x_.id in {d_.name for d_ in _ast.walk(fi.node) if isinstance(d_, _ast.FunctionDef) and d_ is not fi.node}) for x_ in _ast.walk(r_.value)) for r_ in _ast.walk(fi.node))
+    globs = [n for f_ in [fi] + list(helpers.values()) for n in _ast.walk(f_.node) if isinstance(n, (_ast.Global, _ast.Nonlocal)) and not (isinstance(n, _ast.Nonlocal) and id(n) in own_nested and not escapes)]
     chk.require(not globs, "C15.R3.no-state-between-calls", FN, "no global / nonlocal statement", where, "the checksum is a function of its arguments only; nothing is remembered between calls",
                 "the function keeps state between calls (%s): the result can depend on earlier calls" % ", ".join(_ast.unparse(g) for g in globs))
     if len(rets) != 1:
